@@ -15,6 +15,8 @@ import PkVerif.Gen.C19
     awaitfail K                         (live) wait until the outage has refused K calls since outage/restart -> ok
     restart                             crash + readQueueToMemory          -> need=N   (live: ok)
     dump                                                                    -> state line
+    multi N step|live                   (first op only, N = 2|3) N sync handlers with own queue and destination on one source
+    mup I H / msettle / mrestart        (multi) upload during which handler H's queue.Set fails (0 = none) -> ack|err; drain all -> state line; restart all -> ok
     live                                (first op only) real syncLoop mode: only `up I ok`, `restart`, `settle`
     settle                              (live) wait for quiescence         -> state line
 -/
@@ -29,11 +31,14 @@ structure DSt where
   pc : List (Nat × Bool × Bool)
   live : Bool
   started : Bool
+  /-- multi-destination case: one machine per sync handler (empty = not a multi case) -/
+  ms : List St := []
+  macked : List Nat := []
 
 /-- the variant is the one read off the regenerated `enqueue` effects; no default -/
 def variant : Option Variant := variantOf Gen.syncEnqueueEffects
 
-def init : DSt := ⟨Sync.init, [], [], false, false⟩
+def init : DSt := { s := Sync.init, pu := [], pc := [], live := false, started := false }
 
 def parseId (w : String) : Option Nat :=
   let cs := w.toList
@@ -239,11 +244,38 @@ def stepV (v : Variant) (d : DSt) (ws : List String) : DSt × String :=
   | ["dump"] => (d, dump d)
   | _ => (d, "bad-op")
 
+def dumpMulti (d : DSt) : String :=
+  let src := match d.ms with | s :: _ => s.src | [] => []
+  d.ms.foldl (fun acc s => acc ++ s!" | d={showDst s.dst} r={joinNat s.rows} n={joinNat s.need}")
+    s!"src={joinNat src} acked={joinNat d.macked}"
+
+/-- a source with N sync handlers: the product of N machines over one upload stream -/
+def stepMulti (v : Variant) (d : DSt) (ws : List String) : DSt × String :=
+  match ws with
+  | ["mup", i, h] =>
+    match parseId i, parseId h with
+    | some i, some h =>
+      if h > d.ms.length then (d, "bad-op")
+      else
+        let d' := { d with ms := uploadAll v d.ms i h }
+        if h == 0 then ({ d' with macked := ins i d.macked }, "ack") else (d', "err")
+    | _, _ => (d, "bad-op")
+  | ["mrestart"] => ({ d with ms := d.ms.map (fun s => Sync.step v s .restart) }, "ok")
+  | ["msettle"] =>
+    let d' := { d with ms := d.ms.map (fun s => (drain v s .ok []).1) }
+    (d', dumpMulti d')
+  | _ => (d, "bad-op")
+
 def step (d : DSt) (ws : List String) : DSt × String :=
   match variant with
   | none => (d, "no-variant")
   | some v =>
-    if d.live then stepLive v d ws
+    if !d.ms.isEmpty then stepMulti v d ws
+    else if !d.started && (ws == ["multi", "2", "step"] || ws == ["multi", "2", "live"]) then
+      ({ d with started := true, ms := [Sync.init, Sync.init] }, "ok")
+    else if !d.started && (ws == ["multi", "3", "step"] || ws == ["multi", "3", "live"]) then
+      ({ d with started := true, ms := [Sync.init, Sync.init, Sync.init] }, "ok")
+    else if d.live then stepLive v d ws
     else if ws == ["live"] then
       if d.started then ({ d with started := true }, "bad-op")
       else ({ d with live := true, started := true }, "ok")
